@@ -54,9 +54,36 @@ class Sentinel:
 _TASKS = []
 
 
+class _TaskTimeout(BaseException):
+    pass
+
+
+def _alarm(signum, frame):
+    raise _TaskTimeout()
+
+
 def _run_task(i):
+    import signal
     t = _TASKS[i]
     t0 = time.time()
+    try:
+        signal.signal(signal.SIGALRM, _alarm)
+        signal.alarm(int(t.deadline_s) + 120)
+    except Exception:
+        pass
+    try:
+        return _run_task_inner(i, t, t0)
+    except _TaskTimeout:
+        return i, dict(paths=0, infeasible=0, checks={}, errors=['task timed out after %ds (hang in native code or solver); undecided' % (int(t.deadline_s) + 120)],
+                       solver_s=0, queries=0, truncated=True, backends={}, external={}, wall_s=round(time.time() - t0, 3))
+    finally:
+        try:
+            signal.alarm(0)
+        except Exception:
+            pass
+
+
+def _run_task_inner(i, t, t0):
     try:
         if t.kind == 'sym':
             res = S.explore(t.harness, t.args, max_paths=t.max_paths, deadline_s=t.deadline_s,
